@@ -60,6 +60,10 @@ def gen_cases(tier, seed):
                     # the worker gives up with SystemExit (not an Exception subclass)
                     start.append({'kind': 'start-fault', 'name': name, 'tree': tree, 'fail_leaf': leaf[1], 'fail_index': wi, 'init_kind': 'sysexit',
                                   'gc_threshold': None, 'seed': rng.randrange(1 << 30)})
+                if leaf[0] == 'P' and name in ('P2', 'seqTP', 'ensTP', 'swTP', 'seqPP') and wi == leaf[2] - 1:
+                    # a worker process that dies hard in __init__ (os._exit): it never gets to send the failure handshake
+                    start.append({'kind': 'start-fault', 'name': name, 'tree': tree, 'fail_leaf': leaf[1], 'fail_index': wi, 'init_kind': 'osexit',
+                                  'gc_threshold': None, 'seed': rng.randrange(1 << 30)})
                 if name in ('T3', 'P2', 'seqTP', 'ensTP', 'swTP') and wi in (0, leaf[2] - 1):
                     # the worker leaves __init__ with sys.exit(0) / sys.exit(): there is no error to re-raise, but the server must not come up without it
                     start.append({'kind': 'start-fault', 'name': name, 'tree': tree, 'fail_leaf': leaf[1], 'fail_index': wi, 'init_kind': 'sysexit0',
@@ -227,7 +231,7 @@ def run_start_fault(case):
             pass
     else:
         e = box.get('exc')
-        if case.get('init_kind') == 'sysexit0':
+        if case.get('init_kind') in ('sysexit0', 'osexit'):
             obs['enter_raised_own_error'] = 1  # any error will do: the worker's own exit carries the 'success' code
         elif case.get('init_kind') == 'sysexit':
             if not isinstance(e, SystemExit) or f"{case['fail_leaf']}[{case['fail_index']}]" not in str(e.code):
